@@ -239,6 +239,7 @@ func (r *Raft) onAppendEntriesRequest(req *appendReq, c *conn) (rpcResult, error
 			if trace {
 				println(r, "log.removeGTE", ne.index)
 			}
+			verifLogChange(r, "truncate")
 			r.storage.removeGTE(ne.index, prevTerm)
 			if ne.index <= r.configs.Latest.Index {
 				r.revertConfig()
@@ -337,6 +338,7 @@ func (r *Raft) onInstallSnapRequest(req *installSnapReq, c *conn) (rpcResult, er
 		termsMatched := metaTerm == meta.term
 		if termsMatched {
 			// remove <=meta.index, but retain following it
+			verifLogChange(r, "compact")
 			if err = r.compactLog(meta.index); err != nil {
 				return unexpectedErr, err
 			}
@@ -345,6 +347,7 @@ func (r *Raft) onInstallSnapRequest(req *installSnapReq, c *conn) (rpcResult, er
 		}
 	}
 	if discardLog {
+		verifLogChange(r, "discard")
 		if err = r.storage.clearLog(); err != nil {
 			return unexpectedErr, err
 		}
